@@ -12,7 +12,7 @@ from harness.gallina import glist, gn, gopt, gstr, gz
 
 ID = "C02"
 COQ_TARGETS = ["JsonDoc.vo", "Json.vo", "JsonWf.vo", "JsonProofs.vo", "JsonProofs2.vo", "JsonLoadProofs.vo", "JsonLex.vo", "JsonDocOk.vo",
-               "JsonRoundtrip.vo", "CorrC02.vo", "Props/C02.vo", "PropsJson.vo"]
+               "JsonRoundtrip.vo", "JsonResave.vo", "CorrC02.vo", "Props/C02.vo", "PropsJson.vo"]
 PROPS_FILE = "Props/C02.v"
 CORR_IMPORTS = "Base Heap Schema Canon Reach JsonDoc Json CorrC02"
 OPEN_SCOPES = ["string_scope", "list_scope", "Z_scope"]
@@ -51,7 +51,10 @@ TRUSTED = [
     "inputs (C02_json_doc_ok, coq/JsonDocOk.v) under the boolean premises wf_jsonb, ids_distinctb, refs_wfb and typed_jsonb "
     "(coq/JsonWf.v: ids positive, sofaNums distinct, members indexed once with their own view's sofa, slots hold values of the "
     "kind of their range) which are evaluated per case on the CAS the writer model leaves behind; hence C02_json_roundtrip has "
-    "no premise about the document, the reader or the definedness of the canonical content (C02_canon_json_after_save)",
+    "no premise about the document, the reader or the definedness of the canonical content (C02_canon_json_after_save); "
+    "re-serialisation is proved at the level of JSON values (coq/JsonResave.v: the writer's document is doc_of_canon of the "
+    "canonical content, C02_save_json_canon; C02_json_resave_equal: same canonical content + same mode + same order of views "
+    "=> the same document; with another view order only the sofa prefix of %FEATURE_STRUCTURES and %VIEWS are permuted)",
 ]
 ASSUMPTIONS = [
     "user type names do not start with the reserved pseudo-package 'uima.noNamespace.' and do not end in '[]'",
